@@ -67,6 +67,9 @@ class RefStub:
     def _guarded_intersection_area(self, im):
         return float(self.A[im.k]), int(self.F[im.k])
 
+    def intersection_area(self, im):
+        return float(self.A[im.k])
+
 
 class WarnCounter:
     """counts the 'MalformedPolygonError' warnings of tweakwcs.imalign"""
@@ -192,6 +195,23 @@ def pair_case(ctx, fam, M, F, perm, enforce, lines, pending, imalign, warn):
             'area': None if area is None else float(area),
             'rest': [pos.get(id(o)) for o in work], 'warn': warn.count > 0}
     pair_oracle(ctx, case, n, enforce, raw, impl, im1, im2)
+    if not any(any(r) for r in F):
+        # the deprecated public twin (same algorithm without the area) must make the same choice
+        import warnings
+        work2 = list(ims)
+        try:
+            with warnings.catch_warnings():
+                warnings.simplefilter('ignore')
+                r2 = imalign.max_overlap_pair(work2, enforce)
+            pub = (pos.get(id(r2[0])) if r2[0] is not None else None,
+                   pos.get(id(r2[1])) if r2[1] is not None else None, [pos.get(id(o)) for o in work2])
+        except Exception as e:   # noqa
+            pub = 'raised %s' % type(e).__name__
+        ctx.branch('pair:deprecated-public-twin')
+        if pub != (impl['ref'], impl['im'], impl['rest']):
+            ctx.oracle_fail(case, {'what': 'the deprecated public max_overlap_pair does not select what '
+                                           '_max_overlap_pair selects on the same list', 'public': pub,
+                                   'private': [impl['ref'], impl['im'], impl['rest']]})
     flat = [to_fraction(x) for r in raw for x in r]
     line = 'pair Q %d %d %s' % (1 if enforce else 0, n, ' '.join(q2s(x) for x in flat))
     if n:
@@ -333,6 +353,21 @@ def next_case(ctx, fam, A, F, enforce, lines, pending, imalign, warn):
     pos = {id(s): p for p, s in enumerate(ims)}
     impl = {'idx': None if im is None else pos.get(id(im)), 'area': None if area is None else float(area),
             'rest': [pos.get(id(o)) for o in work], 'warn': warn.count > 0}
+    if not any(F):
+        import warnings
+        work2 = list(ims)
+        try:
+            with warnings.catch_warnings():
+                warnings.simplefilter('ignore')
+                r2 = imalign.max_overlap_image(ref, work2, enforce)
+            pub = (None if r2 is None else pos.get(id(r2)), [pos.get(id(o)) for o in work2])
+        except Exception as e:   # noqa
+            pub = 'raised %s' % type(e).__name__
+        ctx.branch('next:deprecated-public-twin')
+        if pub != (impl['idx'], impl['rest']):
+            ctx.oracle_fail(case, {'what': 'the deprecated public max_overlap_image does not select what '
+                                           '_max_overlap_image selects on the same list', 'public': pub,
+                                   'private': [impl['idx'], impl['rest']]})
     # oracle
     if n == 0:
         if im is not None or area is not None:
